@@ -37,9 +37,9 @@ def load_known():
 def run_property(env, pid, tier, seed):
     mod = importlib.import_module("rules.%s" % pid.lower())
     rep = harness.Report(pid)
-    budget = int(os.environ.get("VERIF_BUDGET_S", "900" if tier == "quick" else "1800"))
+    budget = int(os.environ.get("VERIF_BUDGET_S", "600" if tier == "quick" else "1500"))
 
-    class Budget(Exception):
+    class Budget(BaseException):    # not an Exception: broad handlers inside the analysis must not swallow it
         pass
 
     def on_alarm(signum, frame):
